@@ -1172,7 +1172,8 @@ def gen_time():
         else:
             _cross(notes, "AvroReader.__iter__", avro_facts, lambda g: g == (abase, alogical, aepoch, aepoch_off, aguard, aunit))
         passes, naive_rule, epoch_rule, text_rule, defines, bypass = observe_new()
-        _cross(notes, "datetime.__new__", new_facts, lambda g: ("fold" in g[0]) == ("fold" in passes) and g[1] == naive_rule)
+        # (the observed naive rule covers every construction form, the recogniser only the tail of __new__: not compared)
+        _cross(notes, "datetime.__new__", new_facts, lambda g: ("fold" in g[0]) == ("fold" in passes))
     finally:
         shutil.rmtree(tmp, ignore_errors=True)
     routes = route_functions()
